@@ -58,10 +58,12 @@ func mergeIter[T any](it0, it1 ociregistry.Seq[T], cmp func(T, T) int) ociregist
 		if notFound0 && notFound1 {
 			return ociregistry.ErrorSeq[T](err0)
 		}
-		if notFound0 {
+		// A registry that doesn't know the repository has nothing to list,
+		// but one that delivered items before failing has failed.
+		if notFound0 && len(xs0) == 0 {
 			err0 = nil
 		}
-		if notFound1 {
+		if notFound1 && len(xs1) == 0 {
 			err1 = nil
 		}
 	}
